@@ -239,14 +239,26 @@ static inline std::string compareClient(HttpResponse& res, const vj::Value& cv)
 }
 
 // performs one exchange described by case c with the library's client; returns "" or a description of the mismatch
+static inline std::string exchangeWith(const vj::Value& c, long id, const char* targetField);
+// one exchange per distinct spelling of the target the specification gives (canonical escapes; sub-delimiters left raw)
 static inline std::string exchange(const vj::Value& c, long id)
+{
+	std::string e = exchangeWith(c, id, "target");
+	if (e.empty() && c.has("target2") && c["target2"].bytes() != c["target"].bytes())
+	{
+		e = exchangeWith(c, id, "target2");
+		if (!e.empty()) e = "(target with raw sub-delimiters) " + e;
+	}
+	return e;
+}
+static inline std::string exchangeWith(const vj::Value& c, long id, const char* targetField)
 {
 	const vj::Value& rq = c["req"];
 	pthread_mutex_lock(&g_mu);
 	g_cases[id].c = c;
 	g_cases[id].obs = Observed();
 	pthread_mutex_unlock(&g_mu);
-	String url = String::f("http://127.0.0.1:%i", g_port) + String(c["target"].bytes().c_str());
+	String url = String::f("http://127.0.0.1:%i", g_port) + String(c[targetField].bytes().c_str());
 	HttpRequest req(rq["method"].s().c_str(), url);
 	req.setFollowRedirects(false);
 	req.setHeader("X-Case", String((int)id));
